@@ -56,6 +56,18 @@ pub fn c03(case: &Value) -> Value {
         out = json!(h1.iter().map(|h| json!([kind(h.kind), h.contents.iter().map(|c| c.to_vec()).collect::<Vec<_>>()])).collect::<Vec<_>>());
     } else {
         let mk = || match api {
+            "for_tokenizer" => {
+                let tok = match case["tok"].as_str().unwrap() {
+                    "find_line_ranges" => jj_core::diff::find_line_ranges,
+                    "find_word_ranges" => jj_core::diff::find_word_ranges,
+                    _ => jj_core::diff::find_nonword_ranges,
+                };
+                match case["cmp"].as_str().unwrap() {
+                    "CompareBytesIgnoreWhitespaceAmount" => ContentDiff::for_tokenizer(inputs.iter().map(|v| v.as_slice()), tok, jj_core::diff::CompareBytesIgnoreWhitespaceAmount),
+                    "CompareBytesIgnoreAllWhitespace" => ContentDiff::for_tokenizer(inputs.iter().map(|v| v.as_slice()), tok, jj_core::diff::CompareBytesIgnoreAllWhitespace),
+                    _ => ContentDiff::for_tokenizer(inputs.iter().map(|v| v.as_slice()), tok, jj_core::diff::CompareBytesExactly),
+                }
+            }
             "by_line" => ContentDiff::by_line(inputs.iter().map(|v| v.as_slice())),
             "by_word" => ContentDiff::by_word(inputs.iter().map(|v| v.as_slice())),
             _ => ContentDiff::unrefined(inputs.iter().map(|v| v.as_slice())),
@@ -81,7 +93,15 @@ pub fn c03(case: &Value) -> Value {
                 }
                 pos[i] = r.end;
             }
-            if h.kind == DiffHunkKind::Matching && !h.ranges.iter().enumerate().all(|(i, r)| inputs[i][r.clone()] == inputs[0][h.ranges[0].clone()]) {
+            let cmp_eq = |a: &[u8], b: &[u8]| -> bool {
+                use jj_core::diff::CompareBytes as _;
+                match case["cmp"].as_str().unwrap_or("CompareBytesExactly") {
+                    "CompareBytesIgnoreWhitespaceAmount" => jj_core::diff::CompareBytesIgnoreWhitespaceAmount.eq(a, b),
+                    "CompareBytesIgnoreAllWhitespace" => jj_core::diff::CompareBytesIgnoreAllWhitespace.eq(a, b),
+                    _ => a == b,
+                }
+            };
+            if h.kind == DiffHunkKind::Matching && !h.ranges.iter().enumerate().all(|(i, r)| cmp_eq(&inputs[i][r.clone()], &inputs[0][h.ranges[0].clone()])) {
                 why.push("matching hunk with unequal sides".into());
             }
         }
